@@ -31,8 +31,10 @@ static void dumpCurrent(const char *why)
     o["doc_len"] = g_currentDoc.size();
     emitJson(o);
 }
+#if defined(__SANITIZE_ADDRESS__)
 extern "C" void __sanitizer_set_death_callback(void (*)(void));
 static void onSanitizerDeath() { dumpCurrent("sanitizer"); }
+#endif
 static void onAlarm(int)
 {
     dumpCurrent("timeout");
@@ -1053,7 +1055,9 @@ int main(int argc, char **argv)
 {
     QCoreApplication app(argc, argv);
     signal(SIGALRM, onAlarm);
+#if defined(__SANITIZE_ADDRESS__)
     __sanitizer_set_death_callback(onSanitizerDeath);
+#endif
     if (argc < 2) return 3;
     const QByteArray mode = argv[1];
     if (mode == "list") {
